@@ -29,6 +29,21 @@ FlattenSeq(ss) == IF ss = <<>> THEN <<>> ELSE Head(ss) \o FlattenSeq(Tail(ss))
 SeqToSet(s) == {s[i] : i \in DOMAIN s}
 
 -----------------------------------------------------------------------------
+(* C02: site assignment on the exact lattice.  sites: sequence of grid vectors *)
+(* (units 1/N); thr[s]: an atom is at site s iff the squared minimum-image     *)
+(* distance (k^T G k, units G/N^2) is < thr[s] (thr = ceil(r^2 N^2), the       *)
+(* generator keeps r^2 N^2 away from integers).                                *)
+SitesWithin(G, N, R, p, sites, thr) == {s \in 1..Len(sites) : DistSq(G, p, sites[s], N, R) < thr[s]}
+AssignAtom(G, N, R, p, sites, thr) ==
+  LET c == SitesWithin(G, N, R, p, sites, thr) IN IF c = {} THEN NOSITE ELSE (CHOOSE s \in c : TRUE) - 1
+MinSiteDistSq(G, N, R, sites) ==
+  LET prs == {<<a, b>> \in (1..Len(sites)) \X (1..Len(sites)) : a < b}
+      d(p) == DistSq(G, sites[p[1]], sites[p[2]], N, R)
+  IN IF prs = {} THEN 0 ELSE d(CHOOSE p \in prs : \A q \in prs : d(p) <= d(q))
+(* spheres of radius r (r^2 N^2 in (thr-1, thr)) around two sites at squared distance q do not overlap: (2r)^2 <= q *)
+NonOverlap(thrA, thrB, q) == \A x \in {thrA, thrB} : 4 * (x - 1) < q
+
+-----------------------------------------------------------------------------
 (* C03: the event table                                                      *)
 
 (* declarative: times t (0-based) at which the atom's <<outer,inner>> state   *)
